@@ -36,6 +36,34 @@ fn tame_huge(mut case: Case) -> Case {
             Case::File(c) => fix(&mut c.env),
             Case::Cursor(c) => {
                 fix(&mut c.env);
+                if c.fresh_each {
+                    // seeks: keep the probes that surround the multi-megabyte entries (their keys, the
+                    // neighbouring keys, immediate successors and predecessors), then a few of the others
+                    if let Entries::Literal(v) = &c.spec.entries {
+                        let mut probes: Vec<Vec<u8>> = Vec::new();
+                        for (i, (_, val)) in v.iter().enumerate() {
+                            if val.0.len() >= (1 << 20) {
+                                for j in i.saturating_sub(2)..(i + 3).min(v.len()) {
+                                    let k = v[j].0 .0.clone();
+                                    let mut succ = k.clone();
+                                    succ.push(0);
+                                    probes.push(crate::gen::pred(&k));
+                                    probes.push(succ);
+                                    probes.push(k);
+                                }
+                            }
+                        }
+                        probes.truncate(14);
+                        let mut steps = Vec::new();
+                        for q in probes {
+                            for op in [Op::Ge(B(q.clone())), Op::Le(B(q.clone())), Op::Eq(B(q.clone()))] {
+                                steps.push(CursorStep { cur: 0, op });
+                            }
+                        }
+                        steps.extend(c.steps.iter().take(18).cloned());
+                        c.steps = steps;
+                    }
+                }
                 c.steps.truncate(60);
                 for st in c.steps.iter_mut() {
                     if let Op::NextN(k) | Op::PrevN(k) = &mut st.op {
